@@ -236,7 +236,7 @@ def layout_of(case: dict) -> dict:
     files: dict = {}
     for p, rel in sorted((f[0], list(f[1])) for f in case["files"]):
         files.setdefault(str(p), []).append(rel)
-    return {"files": files, "pth": case["pth"], "pthform": case["pthform"]}
+    return {"files": files, "pth": case["pth"], "pthform": case["pthform"], "given": case.get("given", "both")}
 
 
 def layout_key(case: dict) -> str:
@@ -294,9 +294,16 @@ def compare_oracle(lay: fs.Layout, ref: PyRef, o: dict) -> str | None:
 def group_py(group: dict) -> dict | None:
     """The CPython reference of the layout: printed by the spec with the canonical request-by-name case only."""
     for c in group["cases"]:
-        if c["iscanon"] and c["request"] == "name":
+        if is_base(c):
             return c["py"]
     return None
+
+
+def is_base(case: dict) -> bool:
+    """The case carrying the reference: canonical listing, request by name (the forced by-path request when the
+    directory lies outside the given search paths)."""
+    forced = {"both": "name", "only1": "path2", "only2": "path1"}[case.get("given", "both")]
+    return bool(case["iscanon"]) and case["request"] == forced
 
 
 def check_chunk(args) -> dict:
@@ -325,7 +332,7 @@ def check_chunk(args) -> dict:
                     extra.add(".".join(n["path"]))
             reals.append(rr)
             cands = {".".join(e["path"]) for e in (group_py(group) or {"imp": []})["imp"]} | extra
-            jobs.append({"id": gi, "paths": lay.search_paths(), "name": "pkg", "candidates": sorted(cands)})
+            jobs.append({"id": gi, "paths": lay.reference_paths(), "name": "pkg", "candidates": sorted(cands)})
         proc = subprocess.run([PY, "-m", "gverif.props.c14_oracle"], input=json.dumps(jobs), capture_output=True, text=True, env=child_env(), cwd=VERIF, check=False)
         if proc.returncode != 0:
             res["fatal"].append(f"CPython oracle failed: {proc.stderr[-800:]}")
@@ -363,7 +370,7 @@ def check_group(res: dict, group: dict, lay: fs.Layout, reals: list, o: dict):
     # reference run of the real code for order / request independence: canonical listing, request by name
     base = None
     for case, real in zip(cases, reals):
-        if case["iscanon"] and case["request"] == "name":
+        if is_base(case):
             base = (case, real)
     for case, real in zip(cases, reals):
         res["replayed"] += 1
@@ -382,7 +389,7 @@ def check_group(res: dict, group: dict, lay: fs.Layout, reals: list, o: dict):
         outcome = real["outcome"]
         tree = norm_tree(real["tree"])
         ident_case = {"kind": "group", "layout": group["layout"], "case": slim(case), "canon": slim(base[0]) if base else None}   # canon carries `py`
-        sigbase = {"fam": fam, "causes": causes, "request": "path" if case["request"].startswith("path") else case["request"]}
+        sigbase = {"fam": fam, "causes": causes, "given": case.get("given", "both"), "request": "path" if case["request"].startswith("path") else case["request"]}
         if outcome not in ("ok", "ModuleNotFoundError", "KeyError"):
             res["violations"].append((dict(sigbase, clause="total", predicted=False, as_model=False), f"load raised/ended with {outcome} {real.get('detail', '')} on {ident(case)}", ident_case))
             continue
@@ -390,7 +397,8 @@ def check_group(res: dict, group: dict, lay: fs.Layout, reals: list, o: dict):
             res["stats"]["listing-not-injected"] += 1
             if len(res["drift_examples"]) < 3:
                 res["drift_examples"].append(f"listing order not injected for {real['not_injected']} ({ident(case)})")
-        as_model = outcome == spec_out and strip(tree) == strip(spec_tree)
+        real_sp = [f[0] if isinstance(f, list) and not f[1] else f for f in (real.get("search_paths") or [])]
+        as_model = outcome == spec_out and strip(tree) == strip(spec_tree) and (not real_sp or real_sp == list(case["impl"]["spaths"]))
         if not as_model:
             res["drift"] += 1
             if len(res["drift_examples"]) < 3:
@@ -430,13 +438,13 @@ def unroot(text, lay: fs.Layout):
 def slim(case: dict | None) -> dict | None:
     if case is None:
         return None
-    return {k: case[k] for k in ("fam", "stubs", "files", "pth", "pthform", "request", "iscanon", "listing", "impl", "py", "viol", "causes")}
+    return {k: case.get(k, "both") if k == "given" else case[k] for k in ("fam", "stubs", "files", "pth", "pthform", "given", "request", "iscanon", "listing", "impl", "py", "viol", "causes")}
 
 
 def ident(case: dict) -> str:
     files = sorted(f"{f[0]}:{'/'.join(f[1])}" for f in case["files"])
     order = "; ".join(f"{l['p']}:{'/'.join(l['d'])} files={l['files']} dirs={l['dirs']}" for l in sorted(case["listing"], key=lambda l: (l["p"], l["d"])))
-    return f"files={files} pth={case['pth']}/{case['pthform']} request={case['request']} order=[{order}]"
+    return f"files={files} pth={case['pth']}/{case['pthform']} search_paths={case.get('given', 'both')} request={case['request']} order=[{order}]"
 
 
 def group_cases(cases: list) -> list:
@@ -471,7 +479,7 @@ def state_to_case(st: dict, fam: str) -> dict:
     for key, ent in (st["listing"].items() if isinstance(st["listing"], dict) else []):
         p = int(re.match(r"<<(\d+)", key).group(1))
         listing.append({"p": p, "d": re.findall(r'"([^"]*)"', key), "files": ent["files"], "dirs": ent["dirs"]})
-    return {"fam": fam, "stubs": fam == "stubs", "files": st["files"], "pth": st["pth"], "pthform": st["pthform"], "request": st["request"], "iscanon": False, "listing": listing,
+    return {"fam": fam, "stubs": fam == "stubs", "files": st["files"], "pth": st["pth"], "pthform": st["pthform"], "given": st.get("given", "both"), "request": st["request"], "iscanon": False, "listing": listing,
             "impl": {"outcome": st["outcome"], "tree": st["tree"], "spaths": st["spaths"]}, "py": st["py"], "viol": None, "causes": st["causes"]}
 
 
